@@ -11,7 +11,7 @@
 //   realfaulty  real peer with simulate_faulty_behaviour, its internal coin in {0,1} x a_h x a_p
 //   withhold    peer never sends its commitment {forever, adaptive = would send it only after having seen the honest
 //               opening and then choose its share so that the result is 0} x a_h x a'_h
-//   mutC/muta/muty  one of the three peer lines replaced by a catalogue value {v+1, 2v+3, 0, 1, q, v+q, p-1, -v, empty line}
+//   mutC/muta/muty  one of the three peer lines replaced by a catalogue value {v+1, 2v+3, 0, 1, q, v+q, p-1, -v, empty line; openings also v-q}
 //               (commitment additionally {p, v+p, g, v*g mod p}) x a_h x a_p x a'_p, peer timing slow
 //   tiny regime : q in {5, 11} (thorough {5,7,11,13,17,23}), |p| = 48: a_h, a_p range over ALL residues mod q
 //   small regime: (|p|,|q|) in {(128,64),(256,160)} (thorough also (160,96),(192,128)): values from 4 (thorough 16) seeds
@@ -346,7 +346,7 @@ static void seeded(VList &L, const Group &G, uint64_t tag, unsigned n)
 }
 
 struct Mut { const char *name; };
-static const char *MUTS[] = { "v+1", "2v+3", "0", "1", "q", "v+q", "p-1", "-v", "empty", "p", "v+p", "g", "v*g" };
+static const char *MUTS[] = { "v+1", "2v+3", "0", "1", "q", "v+q", "p-1", "-v", "empty", "p", "v+p", "g", "v*g", "v-q" };
 // returns false if the mutation is the empty line
 static bool mutate(mpz_ptr out, int m, mpz_srcptr v, const Group &G)
 {
@@ -365,6 +365,7 @@ static bool mutate(mpz_ptr out, int m, mpz_srcptr v, const Group &G)
 		case 10: mpz_add(out, v, G.p); break;
 		case 11: mpz_set(out, G.g); break;
 		case 12: mpz_mul(out, v, G.g); mpz_mod(out, out, G.p); break;
+		case 13: mpz_sub(out, v, G.q); break;   // the negative representative of the same residue: |v-q| < q for v > 0
 	}
 	return true;
 }
@@ -471,8 +472,10 @@ int main(int argc, char **argv)
 				}
 				else
 				{
-					int nm = fam == 4 ? 13 : 9;
+					// commitment: catalogue entries 0..12; openings: 0..8 and 13 (v-q, added after seeded change C17-3)
+					int nm = fam == 4 ? 13 : 14;
 					for (int m = 0; m < nm; m++)
+						if (fam == 4 || m < 9 || m == 13)
 						for (size_t i = 0; i < AHf.v.size(); i++) for (size_t j = 0; j < AP.v.size(); j++) for (size_t l = 0; l < YP.v.size(); l++)
 						{
 							setv(AHf.v[i], YH.v[(i + j) % YH.v.size()], AP.v[j], YP.v[l]);
